@@ -33,7 +33,9 @@ SPEC = {
         "trie/sync.go:Sync.Missing", "trie/sync.go:Sync.Process", "trie/sync.go:Sync.Commit",
         "trie/sync.go:Sync.Pending", "trie/sync.go:Sync.schedule", "trie/sync.go:Sync.children",
         "trie/sync.go:Sync.commit", "core/state/sync.go:NewStateSync",
-        "you/downloader/triesync.go:trieSync.processNodeData",
+        "you/downloader/triesync.go:trieSync.processNodeData", "you/downloader/triesync.go:trieSync.fillTasks",
+        "you/downloader/triesync.go:trieSync.process", "you/downloader/triesync.go:trieSync.commit",
+        "you/downloader/triesync.go:trieSync.loop", "you/downloader/triesync.go:Downloader.runTrieSync",
     ],
     "level_text": "Coq theorems over all histories of any length (responses in any order and batching, duplicates, "
                   "unrequested and undecodable blobs, writers failing after k puts, restarts on the database as it is), "
@@ -45,7 +47,15 @@ SPEC = {
                   "that hashes to nothing pending, or does not decode, changes nothing in any scheduler state. The "
                   "unrestricted statement is refuted in the model by the finding's witness. The model is a hand-written "
                   "mirror of trie.Sync, the state-sync callback and processNodeData, compared inside Coq with the real "
-                  "code on scripted responder histories (return values, Pending, full request/membatch/database dumps).",
+                  "code on scripted responder histories (return values, Pending, full request/membatch/database dumps). "
+                  "Completeness, never-partial and identical content are also stated without any assumption on the hash: "
+                  "either they hold or two distinct blobs with equal hash are exhibited in the run's own store. The "
+                  "downloader's request bookkeeping (trieSync.fillTasks/process/commit and runTrieSync's dispatcher) is a "
+                  "state machine over the Sync model: for every sequence of peer and loop events the invariant holds, blobs "
+                  "whose hash is not pending and packets without an active request change nothing, unanswered tasks are queued "
+                  "again (re-assignable after timeout/drop), the loop ends without error only with Pending()=0 and the deferred "
+                  "commit(true) leaves an ordered-closed, complete database; fillTasks/process/commit run for real in a separate "
+                  "campaign class with scripted peers.",
     "level_note": "Trusted: Coq kernel + vm_compute; fidelity of the hand model rests on the differential check "
                   "(generator reach in evidence); Keccak and decodeNode are parameters of every theorem (the harness "
                   "supplies their finite tables per case); no axioms. Open finding: a raw entry (contract code) equal to "
@@ -54,12 +64,17 @@ SPEC = {
     "harness": "c19",
     "hooks": ["trie/zz_verif_c19.go", "you/downloader/zz_verif_c19.go"],
     "translators": [],
-    "coq_targets": ["C19/Model.vo", "C19/Proofs.vo", "C19/ProofsInv.vo", "C19/ProofsMain.vo", "C19/Properties.vo"],
+    "coq_targets": ["C19/Model.vo", "C19/Proofs.vo", "C19/ProofsInv.vo", "C19/ProofsMain.vo", "C19/ProofsCollide.vo",
+                    "C19/ProofsCaller.vo", "C19/Properties.vo"],
     "properties_v": "C19/Properties.v",
     "obligations": [
         "C19_closed_holds_outside", "C19_never_partial_holds_outside", "C19_complete_holds_outside",
         "C19_identical_content", "C19_database_hash_consistent", "C19_wrong_data", "C19_complete_refuted",
+        "C19_complete_or_collision_holds_outside", "C19_identical_content_or_collision",
+        "C19_caller_unrequested_blob_ignored", "C19_caller_unsolicited_packet_dropped", "C19_caller_unanswered_requeued",
+        "C19_caller_closed_holds_outside", "C19_caller_complete_holds_outside",
         "C19_nonvacuous_world", "C19_nonvacuous_interrupted", "C19_nonvacuous_wrong_data", "C19_nonvacuous_witness",
+        "C19_nonvacuous_caller",
     ],
     "cases": {"quick": 240, "thorough": 6000},
     "shard": 120,
@@ -74,23 +89,30 @@ SPEC = {
         "correspondence harness harness/cmd/c19 (Go): interning of hashes/blobs, the per-case tables of Keccak-256 and of "
         "decodeNode (hook trie.VerifC19Decode + rlp decoding of state.Account), the scripted responder, the failing writer",
         "hooks hooks/trie/zz_verif_c19.go (read-only projections of decodeNode and of the scheduler state) and "
-        "hooks/you/downloader/zz_verif_c19.go (runs processNodeData on a bare trieSync)",
+        "hooks/you/downloader/zz_verif_c19.go (runs processNodeData, fillTasks, process, commit on a trieSync built by newTrieSync "
+        "over a Downloader holding only a peer set)",
     ],
     "assumptions": [
         "outside the finding class: raw_node_separate (a blob whose hash an account uses as code/delegations hash does not "
         "decode to a node that needs anything) and storage_account_separate (no storage-trie node carries a value that decodes "
         "as an account); C19_complete_refuted shows the statement fails without them",
         "no blob hashes to the all-zero hash (common.Hash{} means 'no parent' in AddSubTrie/AddRawEntry)",
-        "completeness and identical-content theorems assume the hash function is injective (closedness and hash-consistency do not)",
+        "the injective-hash versions of completeness / identical content are kept; the *_or_collision versions need no assumption on the hash",
         "the hash handed to Sync.Process is the hash of the blob (done by trieSync.processNodeData; Sync itself does not check it)",
         "the database the sync reads is the one Commit writes to, nothing else deletes from it; the initial database is ordered-closed "
         "(empty, or left by an earlier sync)",
         "a decoded node has at most one value child and it comes after all hash children (checked by the harness for every blob it decodes)",
         "Missing's choice among equal priorities is taken from the observation and only checked to be a legal pop order",
-        "goroutines, timers, peers and the retry bookkeeping of the downloader loop are outside the model",
+        "caller campaign: trieSync.fillTasks / process / commit / processNodeData are executed for real (bare Downloader with a "
+        "peer set); the select loop of runTrieSync and trieSync.loop (goroutines, channels, timers, peer capacity, dropPeer) "
+        "is modelled as the event alphabet of mstep and played by the harness, not executed; which eligible tasks a Go map "
+        "iteration hands out and which of equal-priority entries Missing pops are taken from the observation and checked legal",
+        "trieSync.commit writes through a database batch (atomic); the per-put prefix property is proved for Sync.Commit anyway",
     ],
     "modelled": ["trie.NewSync", "trie.Sync.AddSubTrie", "trie.Sync.AddRawEntry", "trie.Sync.Missing", "trie.Sync.Process",
                  "trie.Sync.Commit", "trie.Sync.Pending", "trie.Sync.schedule", "trie.Sync.children", "trie.Sync.commit",
-                 "state.NewStateSync (leaf callback)", "downloader.trieSync.processNodeData"],
+                 "state.NewStateSync (leaf callback)", "downloader.trieSync.processNodeData",
+                 "downloader.trieSync.fillTasks", "downloader.trieSync.process", "downloader.trieSync.commit",
+                 "downloader.trieSync.loop (as events)", "downloader.Downloader.runTrieSync (dispatcher, as events)"],
     "partial": [],
 }
